@@ -1327,9 +1327,10 @@ class HeteroscedasticHeavisideConditional(HeteroscedasticConditional):
             p_hg = p_x.get_density_of_linear_sum(sum_weights, sum_bias)
             p_h = p_hg.get_marginal(jnp.array([1]))
             tp_h = truncated_measure.TruncatedGaussianMeasure(measure=p_h, lower_limit=0.)
-            p_g_given_h = p_hg.condition_on_explicit(jnp.array([1]), jnp.array([0]))
-            factor = p_g_given_h.M[:,0,0]
-            constant = p_g_given_h.b[:,0]
+            # regression of g on h from the joint covariance (stays finite when g is a deterministic function of h)
+            factor = p_hg.Sigma[:,0,1] / p_hg.Sigma[:,1,1]
+            constant = p_hg.mu[:,0] - factor * p_hg.mu[:,1]
+            var_g_given_h = p_hg.Sigma[:,0,0] - factor * p_hg.Sigma[:,0,1]
             
         Zh = tp_h.integrate()
         Eh = tp_h.integrate("x")[:,0]
@@ -1337,7 +1338,7 @@ class HeteroscedasticHeavisideConditional(HeteroscedasticConditional):
         #heteroscedastic_term_i = Zh * constant**2 + Eh2 * factor**2 + 2 * Eh * factor * constant
         heteroscedastic_term_i = Zh * constant**2 + Eh2 * factor**2 + 2 * Eh * factor * constant
         if self.Dx > 1:
-            heteroscedastic_term_i += Zh * p_g_given_h.Sigma[:,0,0]                  
+            heteroscedastic_term_i += Zh * var_g_given_h
         heteroscedastic_term_i *= 0.5
         return heteroscedastic_term_i[None]
 
@@ -1441,9 +1442,10 @@ class HeteroscedasticReLUConditional(HeteroscedasticConditional):
             sum_bias = jnp.hstack([a_projected_yb, jnp.tile(w0[None], (a_projected_yb.shape[0],1))])
             p_hg = p_x.get_density_of_linear_sum(sum_weights, sum_bias)
             p_h = p_hg.get_marginal(jnp.array([1]))
-            p_g_given_h = p_hg.condition_on_explicit(jnp.array([1]), jnp.array([0]))
-            c1 = p_g_given_h.M[:,0,0]
-            c0 = p_g_given_h.b[:,0]
+            # regression of g on h from the joint covariance (stays finite when g is a deterministic function of h)
+            c1 = p_hg.Sigma[:,0,1] / p_hg.Sigma[:,1,1]
+            c0 = p_hg.mu[:,0] - c1 * p_hg.mu[:,1]
+            var_g_given_h = p_hg.Sigma[:,0,0] - c1 * p_hg.Sigma[:,0,1]
             
         phi_h = p_h.hadamard(phi_h_factor, update_full=True)
         tp_h = truncated_measure.TruncatedGaussianMeasure(measure=phi_h, lower_limit=0.) 
@@ -1452,13 +1454,13 @@ class HeteroscedasticReLUConditional(HeteroscedasticConditional):
         Eh3 = tp_h.integrate("x**k", k=3)[:,0]
         cubic_integral = Eh * c0**2 + Eh3 * c1**2 + 2 * Eh2 * c1 * c0
         if self.Dx > 1:
-            cubic_integral += Eh * p_g_given_h.Sigma[:,0,0]                   
+            cubic_integral += Eh * var_g_given_h                   
         
         if compute_fourth_order:
             Eh4 = tp_h.integrate("x**k", k=4)[:,0]
             quartic_integral = Eh2 * c0**2 + Eh4 * c1**2 + 2 * Eh3 * c1 * c0
             if self.Dx > 1:
-                quartic_integral += Eh2 * p_g_given_h.Sigma[:,0,0]   
+                quartic_integral += Eh2 * var_g_given_h   
             return cubic_integral[None], quartic_integral[None]
         else:
             return cubic_integral[None]  
